@@ -13,6 +13,13 @@ RCU_ASSUME = ("Oracle: per-object snapshot of the read-side critical sections op
               "per-object disposer counters after the singleton is destroyed. Signals of the signal-handling flavour are delivered by the scheduler at the target's next scheduling point. "
               "Buffer capacities 2,3,4,8 with the default Vyukov buffer (capacity 1 is outside that buffer's precondition).")
 
+BOOST = ["-lboost_thread", "-lboost_system"]
+FC_ASSUME = ("Flat-combining containers run their client threads as real pthreads that exit before the container is destroyed (thread exit and the boost TLS cleanup are scheduled); "
+             "oracle: Wing-Gong linearizability incl. the final drain, size()/empty() at quiescence.")
+MAP_ASSUME = ("Oracle: Wing-Gong linearizability against a sequential map whose items carry the tag of the insertion that created them (which insertion an operation observed is checked), "
+              "functor-call contract of insert/update/erase/find, quiescent-point checks (traversal exact and ordered, size()/empty(), structure checks), intrusive items disposed exactly once; "
+              "guarded/raw/exempt pointers are dereferenced at scheduling points before release following each container's documented protocol.")
+
 PROPS = {
     "C01": {
         "harnesses": [{"name": "smr", "variants": [0, 1], "quick": 480000, "thorough": 6000000, "fuzz_runs": 600000}],
@@ -34,9 +41,95 @@ PROPS = {
         "harnesses": [{"name": "rcu", "quick": 480000, "thorough": 6000000, "fuzz_runs": 600000}],
         "assumptions": [SC, RCU_ASSUME],
     },
+    "C07": {
+        "harnesses": [{"name": "vyukov", "quick": 400000, "thorough": 4000000, "fuzz_runs": 400000}],
+        "assumptions": [SC, "Oracle: Wing-Gong linearizability against a bounded FIFO model (failed enqueue only on a full state, failed dequeue only on an empty one, front()/pop_front() of the single-consumer variant as front-read + dequeue), size()/empty() at quiescence, intrusive node canaries."],
+    },
     "C08": {
         "harnesses": [{"name": "segq", "quick": 400000, "thorough": 4000000, "fuzz_runs": 400000}],
         "assumptions": [SC, "Oracle: history invariants in their conservative reading (conservation, quasi-factor bound with q.quasi_factor(), emptiness rule), final drain/clear by main, per-node disposer accounting for the intrusive variants; deterministic permutation generators replace the random one through the documented trait."],
+    },
+    "C09": {
+        "harnesses": [{"name": "stack", "quick": 400000, "thorough": 4000000, "fuzz_runs": 400000,
+                       "extra": {"quick": [["elim2", 400, "1,2,4,7,13,15", "0,1"]], "thorough": [["elim2", 400, "all", "all"]]}, "weight": 3},
+                      {"name": "fc_containers", "variants": list(range(25, 36)), "quick": 16000, "thorough": 240000, "fuzz_runs": 40000, "weight": 1}],
+        "libs": BOOST,
+        "assumptions": [SC, FC_ASSUME, "Oracle: Wing-Gong linearizability against a LIFO model incl. the final drain; item accounting; intrusive nodes disposed exactly once; the elimination random engine is replaced by a case-seeded one through the documented trait."],
+    },
+    "C10": {
+        "harnesses": [{"name": "fc_containers", "variants": list(range(36, 44)), "quick": 24000, "thorough": 400000, "fuzz_runs": 60000}],
+        "libs": BOOST, "assumptions": [SC, FC_ASSUME],
+    },
+    "C11": {
+        "harnesses": [{"name": "mspq", "quick": 320000, "thorough": 3200000, "fuzz_runs": 400000, "weight": 3},
+                      {"name": "fc_containers", "variants": list(range(44, 49)), "quick": 16000, "thorough": 240000, "fuzz_runs": 40000, "weight": 1}],
+        "libs": BOOST, "assumptions": [SC, FC_ASSUME, "MSPriorityQueue: conservation, conservative push-failure/empty-pop rules, drain order; linearizability against a bounded max-priority queue for every history in which no push overlaps a pop (phased programs and qualifying free ones)."],
+    },
+    "C12": {
+        "harnesses": [{"name": "ringbuf", "quick": 400000, "thorough": 4000000, "fuzz_runs": 400000}],
+        "assumptions": [SC, "Exactly one producer and one consumer thread. Oracle: exact sequence/size/bytes of every record, failure rules in their conservative reading against a byte-exact model of free space (incl. the unused tail of WeakRingBuffer<void>); record sizes stay inside the precondition the code asserts (calc_real_size(size) < capacity())."],
+    },
+    "C13": {
+        "harnesses": [{"name": "lists_hp", "quick": 240000, "thorough": 2400000, "fuzz_runs": 300000},
+                      {"name": "lists_rcu", "quick": 160000, "thorough": 1600000, "fuzz_runs": 200000}],
+        "assumptions": [SC, MAP_ASSUME],
+    },
+    "C14": {
+        "harnesses": [{"name": "hashsets_a", "quick": 160000, "thorough": 1600000, "fuzz_runs": 200000},
+                      {"name": "hashsets_b", "quick": 160000, "thorough": 1600000, "fuzz_runs": 200000},
+                      {"name": "hashsets_c", "quick": 100000, "thorough": 1000000, "fuzz_runs": 120000}],
+        "assumptions": [SC, MAP_ASSUME, "Hash families: identity, constant, low-bit-sharing, shared-prefix; split-list tables start at 2 buckets with load factor 1-2 so that they grow and initialise buckets recursively during the concurrent phase; Feldman head/array bits at their minimums (4/2)."],
+    },
+    "C19": {
+        "harnesses": [{"name": "iter", "variants": [0, 1, 2, 3, 4, 6, 8, 9, 10, 11, 12, 13, 14], "quick": 200000, "thorough": 2000000, "fuzz_runs": 200000}],
+        "assumptions": [SC, "Oracle: the element an iterator is positioned on keeps its canary/key/tag (really freed memory, ASan); completeness for keys present and untouched during the whole pass (exactly once + order for IterableList, exactly once for hash sets over it, at least once for Feldman); erase_at linearised as 'erase exactly this tag' in the updaters' history.",
+                        "Variants 5 and 7 (MichaelHashSet/SplitListSet over IterableList with DHP and only 4 initial guards) are excluded from the generated campaign, see known_findings.json."],
+    },
+    "C20": {
+        "harnesses": [{"name": "seq_queues", "quick": 160000, "thorough": 1600000, "fuzz_runs": 0},
+                      {"name": "seq_lists_hp", "quick": 60000, "thorough": 600000, "fuzz_runs": 0},
+                      {"name": "seq_lists_rcu", "quick": 40000, "thorough": 400000, "fuzz_runs": 0},
+                      {"name": "seq_hashsets_a", "quick": 40000, "thorough": 400000, "fuzz_runs": 0},
+                      {"name": "seq_hashsets_b", "quick": 40000, "thorough": 400000, "fuzz_runs": 0},
+                      {"name": "seq_hashsets_c", "quick": 30000, "thorough": 300000, "fuzz_runs": 0}],
+        "libs": BOOST,
+        "assumptions": ["Single thread, no scheduler. Oracle: step-wise differential against std::map / std::deque / std::multiset reference models (return values, observed tags, functor-call contract, update triple, size()/empty()/clear(), pop/extract order, full content compare every 4 steps, disposer count per intrusive item)."],
+    },
+    "C21": {
+        "harnesses": [{"name": "freelist", "quick": 480000, "thorough": 4800000, "fuzz_runs": 600000}],
+        "assumptions": [SC, "Oracle: ownership map (list / holder) updated by the client, holder stamps re-checked at generated points, exact drain at quiescence; type-stable nodes; CachedFreeList slot selection made deterministic by overriding the hash of the calling thread's id."],
+    },
+    "C22": {
+        "harnesses": [{"name": "locks", "quick": 320000, "thorough": 3200000, "fuzz_runs": 400000,
+                       "extra": {"quick": [["rawpool"]], "thorough": [["rawpool"]]}}],
+        "assumptions": [SC, "Oracle: occupancy counters and owner ids around every critical section, well-formed programs by construction (unlock only by the holder, LIFO, ordered acquisition for non-reentrant kinds); pool_monitor: lock pointer stable while held, distinct for simultaneously held nodes, refcount bounds, check_free() at quiescence."],
+    },
+    "C23": {
+        "harnesses": [{"name": "fckernel", "quick": 24000, "thorough": 300000, "fuzz_runs": 40000}],
+        "libs": BOOST,
+        "assumptions": [SC, "A minimal flat-combining container over the real kernel with a tracking allocator for publication records, a holder-recording lock wrapper and plain-counter statistics; client threads (and children they spawn) are real pthreads whose exit runs the kernel's TLS cleanup under the scheduler."],
+    },
+    "C24": {
+        "harnesses": [{"name": "pools", "quick": 480000, "thorough": 4800000, "fuzz_runs": 400000}],
+        "assumptions": [SC, "Oracle: ownership map + per-holder stamps re-checked while held; spurious bad_alloc / heap fall-back allowed while other holders may own everything; exact recycling checks at quiescence."],
+    },
+    "C26": {
+        "harnesses": [{"name": "pure_brc", "quick": 100000, "thorough": 1000000, "fuzz_runs": 0,
+                       "extra": {"quick": [["dyck", 22], ["dyck", 20, 62], ["dyck", 20, 2046], ["dyck", 20, 65534], ["dyck", 20, 1048574], ["ramp", 20]],
+                                 "thorough": [["dyck", 26], ["dyck", 24, 1022], ["dyck", 24, 32766], ["dyck", 24, 1048574], ["dyck", 20, 62], ["dyck", 20, 2046], ["ramp", 20]]}}],
+        "assumptions": ["Pure function, no scheduler. The statement's 'first n slots are a permutation of 1..n' holds literally only at full levels (n = 2^k - 1: the first five slots are 1,2,3,4,6); the oracle checks the level-wise truth (slot in level floor(log2 n), not outstanding, parent outstanding, exact {1..n} at full levels, equality with the bit-reversed reference position) and the exact undo of dec()."],
+    },
+    "C27": {
+        "harnesses": [{"name": "pure_splitorder", "variants": [0, 1, 2], "quick": 200000, "thorough": 2000000, "fuzz_runs": 0, "weight": 3,
+                       "extra": {"quick": [["table", 0], ["table", 1], ["table", 6], ["table", 12], ["parents", 0, 1]],
+                                 "thorough": [["table", 0], ["table", 1], ["table", 6], ["table", 12], ["table", 16]] + [["parents", i, 16, 28] for i in range(16)]}},
+                      {"name": "pure_splitorder", "variants": [3, 4, 5], "quick": 1600, "thorough": 16000, "fuzz_runs": 0, "weight": 1}],
+        "assumptions": ["Pure functions, no scheduler. Oracle: reference bit reversal, lemma predicates of the statement, independently sorted dummy list for k <= 12/16, 'clear the most significant set bit' reference for parent_bucket; bucket numbers >= 2^31 run in a forked child so that a sanitizer abort becomes a verdict naming the input."],
+    },
+    "C28": {
+        "harnesses": [{"name": "pure_feldman", "variants": list(range(0, 15)), "quick": 120000, "thorough": 1200000, "fuzz_runs": 0, "weight": 4},
+                      {"name": "pure_feldman", "variants": [15], "quick": 600, "thorough": 6000, "fuzz_runs": 0, "weight": 1}],
+        "assumptions": ["Mostly pure functions; the container layer builds a FeldmanHashSet over HP single-threaded. Configurations rejected by the constructor's own is_correct assertions are counted as rejected, byte-array hashes with head_bits >= 33 are outside the splitter's documented 32-bit cut limit and excluded."],
     },
     "C25": {
         "harnesses": [{"name": "pure_bits", "quick": 160000, "thorough": 2400000, "fuzz_runs": 0,
@@ -47,8 +140,10 @@ PROPS = {
     },
     "C06": {
         "harnesses": [
-            {"name": "queue_ms", "quick": 160000, "thorough": 2400000, "fuzz_runs": 800000, "weight": 3},
+            {"name": "queue_ms", "quick": 400000, "thorough": 4000000, "fuzz_runs": 600000, "weight": 2},
+            {"name": "fc_containers", "variants": list(range(0, 25)), "quick": 24000, "thorough": 400000, "fuzz_runs": 60000, "weight": 2},
         ],
+        "libs": BOOST,
         "assumptions": [SC, "Oracle: Wing-Gong linearizability search against a sequential FIFO model, including the final drain; intrusive nodes: disposer exactly once per node after SMR destruction, link part ASan-poisoned after disposal."],
     },
 }
@@ -65,6 +160,28 @@ _RCU_TEXT = ("Bounded exploration of generated reader/writer programs (nested re
              "schedules for all four flavours incl. the reclamation thread and simulated signal delivery; held on every case explored.")
 
 MANIFEST_TEXT = {
+    "C10": {"text": 'Bounded exploration of generated push_front/push_back/pop_front/pop_back programs x schedules over FCDeque (std::deque and boost::container::deque, elimination on/off, combine passes 1..4, compact factors 1,2,1024, all wait strategies) with a deque linearizability check; client threads are real threads whose exit is scheduled. Held on every case explored.', "note": _SCHED_NOTE, "technique": 'schedule-controlled property-based testing (rapidcheck + libFuzzer) with a linearizability oracle'},
+    "C11": {"text": 'Bounded exploration of generated push/pop programs x schedules over FCPriorityQueue (linearizability against a max-priority queue with ties) and MSPriorityQueue (conservation, conservative failure rules, bounded max-PQ linearizability for histories without push/pop overlap, capacities 1..16). Held on every case explored.', "note": _SCHED_NOTE, "technique": 'schedule-controlled property-based testing (rapidcheck + libFuzzer) with a linearizability oracle'},
+    "C13": {"text": 'Bounded exploration of generated client programs x schedules over MichaelList, LazyList and IterableList as value sets, key-value lists and intrusive lists with HP, DHP, the four RCU flavours and nogc (62 variants): linearizability with insertion tags, functor contract, quiescent checks. Held on every case explored.', "note": _SCHED_NOTE, "technique": 'schedule-controlled property-based testing (rapidcheck + libFuzzer) with a linearizability oracle'},
+    "C14": {"text": 'Bounded exploration of generated client programs x schedules over MichaelHashSet/Map, SplitListSet/Map (static + expandable tables growing during the run) and FeldmanHashSet/Map (minimal head/array bits, prefix-sharing hashes) with HP, DHP, RCU flavours and nogc (53 variants): linearizability with insertion tags, functor contract, quiescent structure checks. Held on every case explored.', "note": _SCHED_NOTE, "technique": 'schedule-controlled property-based testing (rapidcheck + libFuzzer) with a linearizability oracle'},
+    "C19": {"text": 'Bounded exploration of one iterating thread (forward/reverse passes with pauses and erase_at patterns) against updater threads x schedules over IterableList, MichaelHashSet/SplitListSet over it and FeldmanHashSet/Map (HP, DHP, RCU under lock): positioned elements stay intact, completeness for untouched keys, erase_at linearised by tag. Held on every case explored.', "note": _SCHED_NOTE, "technique": 'schedule-controlled property-based testing (rapidcheck + libFuzzer) with element-liveness, completeness and linearizability oracles'},
+    "C20": {"text": 'Generated single-thread API sequences (up to 40/80 operations) over every list/hash variant and over queues, stacks, deques, priority queues and the ring buffer, compared step by step with exact std:: reference models; held on every sequence explored. Held on every case explored.', "note": _SCHED_NOTE, "technique": 'model-based (stateful) property-based testing with rapidcheck: differential against std:: reference models'},
+    "C23": {"text": 'Bounded exploration of requesters, combiners, exclusive invocations, short-lived child threads and list compaction (compact factor 1-2, combine passes 1-2, all lock/wait-strategy combinations) over the real flat-combining kernel: exactly-once execution under mutual exclusion, response after execution, publication records freed once and never touched afterwards (tracking allocator + ASan). Held on every case explored.', "note": _SCHED_NOTE, "technique": 'schedule-controlled property-based testing (rapidcheck + libFuzzer) with execution-count, occupancy and allocation-tracking oracles'},
+    "C26": {"text": 'Generated inc/dec/ramp sequences plus complete enumeration of all prefix-nonnegative inc/dec words up to length 22-26 (from several base counts up to 2^20) and the full 2^20 ramp, against a snapshot stack and an outstanding-slot bitmap. Held on every case explored.', "note": _SCHED_NOTE, "technique": 'property-based testing (rapidcheck) and exhaustive enumeration of short Dyck-like words against a reference model'},
+    "C27": {"text": "Generated (k, hash, bucket) inputs for all three bit-reversal implementations plus enumeration of complete tables (k <= 12/16) and of all parents of buckets < 2^24/2^28, against the statement's lemma predicates; bucket numbers >= 2^31 in a forked child. Held on every case explored.", "note": _SCHED_NOTE, "technique": 'property-based testing (rapidcheck) and exhaustive enumeration of small tables against lemma predicates'},
+    "C28": {"text": 'Generated (hash width, head_bits, array_bits) configurations and hash pairs/bulks with shared prefixes: metrics::make invariants, slot paths as a function of the hash, divergence of distinct hashes, and a single-threaded FeldmanHashSet layer compared with a std::map. Held on every case explored.', "note": _SCHED_NOTE, "technique": 'property-based testing (rapidcheck) with algebraic-law and reference-model oracles'},
+    "C07": {"text": "Bounded exploration of generated enqueue/dequeue programs x schedules over VyukovMPMCCycleQueue (value + intrusive, static + dynamic buffers, capacities 2..8, wrap-around prefixes, single-consumer front/pop_front) with a linearizability check against a bounded FIFO; held on every case explored.",
+            "note": _SCHED_NOTE, "technique": "schedule-controlled property-based testing (rapidcheck + libFuzzer) with a linearizability oracle"},
+    "C09": {"text": "Bounded exploration of generated push/pop programs x schedules over TreiberStack (container + intrusive, HP + DHP, elimination off / static 1..4 / dynamic buffers) with a LIFO linearizability check, plus enumeration of all schedules with <= 2 pre-emptions for four 3-thread programs that reach elimination collisions; held on every case explored.",
+            "note": _SCHED_NOTE, "technique": "schedule-controlled property-based testing (rapidcheck + libFuzzer + bounded schedule enumeration) with a linearizability oracle"},
+    "C12": {"text": "Bounded exploration of generated producer/consumer programs x schedules over WeakRingBuffer<T> (capacities 2..16, power-of-two and arbitrary) and WeakRingBuffer<void> (capacities 32..128, tail-marker and wrap biased record sizes) against an exact sequence/bytes oracle and conservative failure rules; held on every case explored.",
+            "note": _SCHED_NOTE, "technique": "schedule-controlled property-based testing (rapidcheck + libFuzzer) with a reference-model oracle"},
+    "C24": {"text": "Bounded exploration of generated allocate/deallocate programs x schedules over vyukov_queue_pool, lazy_vyukov_queue_pool, bounded_vyukov_queue_pool and pool_allocator, up to and past capacity, against an ownership map; held on every case explored.",
+            "note": _SCHED_NOTE, "technique": "schedule-controlled property-based testing (rapidcheck + libFuzzer) with an ownership-map oracle"},
+    "C21": {"text": "Bounded exploration of generated get/put programs x schedules over FreeList, TaggedFreeList (16-byte CAS) and CachedFreeList against an ownership map and an exact drain at quiescence; held on every case explored.",
+            "note": _SCHED_NOTE, "technique": "schedule-controlled property-based testing (rapidcheck + libFuzzer) with an ownership-map oracle"},
+    "C22": {"text": "Bounded exploration of generated well-formed lock/try_lock/unlock programs (nesting for reentrant locks) x schedules over spin locks with all back-offs, reentrant spin locks, lock_array, injecting_monitor and pool_monitor over the three Vyukov pools, against occupancy/owner counters and the pool-lock invariants; held on every case explored.",
+            "note": _SCHED_NOTE, "technique": "schedule-controlled property-based testing (rapidcheck + libFuzzer) with occupancy-counter oracles"},
     "C08": {"text": "Bounded exploration of generated enqueue/dequeue programs x schedules for SegmentedQueue (container + intrusive, HP + DHP, quasi factors 2..8 incl. non powers of two, three deterministic permutation generators); every history is checked against the statement's three invariants in their conservative reading; held on every case explored.",
             "note": _SCHED_NOTE, "technique": "schedule-controlled property-based testing (rapidcheck + libFuzzer) with history-invariant oracles"},
     "C25": {"text": "Generated inputs (structured + random 64-bit values, cut-width sequences over 1..20-byte sources) plus complete enumeration of all 2^32 inputs of the 32-bit variants (thorough tier; stratified 2^24 sample in the quick tier) and of all byte/16-bit values for the table helpers, against naive reference implementations; held on every input explored.",
